@@ -87,17 +87,17 @@ Step ==
      CASE e.op = "reset" -> pkt' = DefaultMsg /\ live' = TRUE /\ UNCHANGED bad
        [] e.op = "from_bytes" ->
             LET j == JudgeFromBytes(e) IN
-            /\ bad' = IF j = {} THEN bad ELSE Append(bad, BadEntry(l, j, "decode"))
+            /\ bad' = IF j = {} THEN bad ELSE AddBad(bad, BadEntry(l, j, "decode"))
             /\ UNCHANGED << pkt, live >>
        [] e.op \in {"uint_enc", "uint_dec", "str_dec"} ->
             LET j == IF e.op = "uint_enc" THEN JudgeUintEnc(e)
                      ELSE IF e.op = "uint_dec" THEN JudgeUintDec(e) ELSE JudgeStr(e) IN
-            /\ bad' = IF j = {} THEN bad ELSE Append(bad, BadEntry(l, j, "typed option value"))
+            /\ bad' = IF j = {} THEN bad ELSE AddBad(bad, BadEntry(l, j, "typed option value"))
             /\ UNCHANGED << pkt, live >>
        [] e.op = "to_bytes" ->
             LET j == JudgeToBytes(e) IN
             /\ bad' = IF j = {} THEN bad
-                      ELSE Append(bad, BadEntry(l, j, "serialise"))
+                      ELSE AddBad(bad, BadEntry(l, j, "serialise"))
             /\ UNCHANGED << pkt, live >>
        [] e.op = "call" ->
             IF ~live THEN UNCHANGED << pkt, live, bad >>
@@ -105,7 +105,7 @@ Step ==
                      j == JudgeCall(e, exp) IN
                  /\ pkt' = exp
                  /\ live' = (j = {})
-                 /\ bad' = IF j = {} THEN bad ELSE Append(bad, BadEntry(l, j, "builder"))
+                 /\ bad' = IF j = {} THEN bad ELSE AddBad(bad, BadEntry(l, j, "builder"))
 
 Finish == l = NRec + 1 /\ ~done /\ done' = TRUE /\ UNCHANGED << l, pkt, live, bad >>
           /\ WriteResult(bad, [drift |-> Cardinality({i \in 1 .. NRec : Drift(Rec[i])}),
